@@ -278,6 +278,15 @@ func armCalls(c *driver.Ctx) {
 				}
 				c.Distinct(k.name + "(" + strings.Join(types, ",") + fmt.Sprintf(")kw%d", len(kwargs)))
 				judgeCall(c, "call "+k.name, text, res, huge)
+				if res.outcome == "timeout" {
+					// The abandoned goroutine may still be using (and mutating) the pool values:
+					// never touch them again from this goroutine.
+					pool = newPool()
+					byType = map[string][]pv{}
+					for _, p := range pool {
+						byType[p.v.Type()] = append(byType[p.v.Type()], p)
+					}
+				}
 			}
 			if leaked.Load() >= 3 {
 				c.RestartProcess()
